@@ -2,7 +2,7 @@ ALL_IDS = ["C%02d" % i for i in range(1, 21)]
 NOT_BUILT_REASON = {}
 # properties registered in MANIFEST.json (their checks are silent on the unchanged tree and validated
 # against breaks); everything else is listed under not_applicable with the reason "not built yet".
-CLAIMED = ["C01", "C02", "C03", "C04", "C06", "C07", "C08", "C10", "C11", "C12", "C13", "C14", "C15", "C16", "C17", "C18", "C19"]
+CLAIMED = ["C01", "C02", "C03", "C04", "C05", "C06", "C07", "C08", "C09", "C10", "C11", "C12", "C13", "C14", "C15", "C16", "C17", "C18", "C19"]
 
 ENGINES = [
     {"name": "config-oracle", "path": "harness/config", "serves_properties": ["C08"],
@@ -11,6 +11,8 @@ ENGINES = [
      "kind_free_text": "allocator API histories (Assign/Allocate/AllocateFromPool/additional family/Unassign/SetPools) with step monitors on a snapshot of the allocator's bookkeeping"},
     {"name": "box-controller", "path": "harness/controller + harness/lib/boxkernel.go", "serves_properties": ["C01", "C02", "C03", "C06", "C07", "C11"],
      "kind_free_text": "deterministic cluster simulator: real controller + allocator + ServiceReconciler + PoolReconciler on an in-memory API store, seeded scheduler with yield points outside the Listener lock, crash points, failing status writes; reference-model oracles at handler returns and at quiescence"},
+    {"name": "box-speaker", "path": "harness/speaker/sbox_*_test.go + harness/lib/boxkernel.go", "serves_properties": ["C05", "C09"],
+     "kind_free_text": "deterministic cluster simulator for the speaker: real speaker controller, BGP controller with a recording session manager, layer-2 controller + announcer over in-memory responders, real Service/Config/Node reconcilers on an in-memory store under a seeded scheduler"},
     {"name": "l2-linearizability", "path": "harness/layer2", "serves_properties": ["C13"],
      "kind_free_text": "concurrent histories on the real layer-2 announcer + ARP responder over an in-memory PacketConn, checked with porcupine against a sequential model, under the race detector"},
     {"name": "direct-speaker", "path": "harness/speaker/direct_oracle_test.go c04/c10/c12", "serves_properties": ["C04", "C10", "C12"],
@@ -60,6 +62,13 @@ META = {
         "note": "The membership view is an input (memberlist is not run). Exhaustive only for the bounded space; quick tier samples it.",
         "technique": "runtime monitoring: eligibility/election oracle over decisions of the real controllers on enumerated views",
     },
+    "C05": {
+        "engine": "box-speaker",
+        "text": "After every handler return each live session must carry exactly the advertisements of the services the BGP controller holds (route withdrawn as soon as no service produces it, one live session per peer); at every quiescent point the routes, attributes (aggregate, local preference, communities), the set of live sessions and PeersForService are compared with the expectation computed from the resources (pools by the oracle's own parse, advertisement attachment and node / peer selection, eligibility rule, endpoints).",
+        "design_ref": "DESIGN.md 2/C05",
+        "note": "Trusted: the speaker box (watch predicates, queues), the expectation oracle in harness/speaker/sbox_monitor_test.go. Endpoint addresses are unique per node (the Local-policy ambiguity of C10 is kept out).",
+        "technique": "runtime monitoring: expected-route oracle vs recording session manager after every step and at quiescence",
+    },
     "C06": {
         "engine": "box-controller",
         "text": "Crash-point x fault-plan enumeration: each base history is executed crash-free to enumerate its crash points (scheduler yields, before/after every status write, after every event), then re-executed with a crash at selected points (all status-write boundaries first) and failing status writes; after the restarted controller is quiescent the oracle checks that recorded admissible addresses were kept, nothing recorded was taken by an unrecorded service, exclusivity and pool policy hold and memory == statuses.",
@@ -80,6 +89,13 @@ META = {
         "design_ref": "DESIGN.md 2/C08",
         "note": "Trusted: the oracle's own parser (net/netip + math/big), Kubernetes label-selector matching (shared library). Over-rejection is not judged.",
         "technique": "runtime monitoring: reference-model oracle over generated inputs executed on the real parser",
+    },
+    "C09": {
+        "engine": "box-speaker",
+        "text": "At every quiescent point of a speaker history (service / endpoint / node / configuration / membership events, overlapping re-syncs) the announcements - layer-2 holdings and the answer decision per (address, interface), routes on every live session, PeersForService - are compared with two freshly booted speakers on a copy of the store (which must also agree with each other).",
+        "design_ref": "DESIGN.md 2/C09",
+        "note": "The reference speakers hear of the nodes first; the real speaker's dependence on the start order is listed as a known finding (first event of a node asks for no re-sync).",
+        "technique": "runtime monitoring: differential oracle (history instance vs fresh instances) at quiescence",
     },
     "C10": {
         "engine": "direct-speaker",
